@@ -6,8 +6,8 @@ from .. import values as V
 from . import pool
 from . import common
 
-RULE = ("(a) directed: every pair (derivation, write form, side written) over 17 derivations (copy, slice, mask, T, multi-column select, >> vector / "
-	"dict / table, <<, Table([..]), Vector([..]), join, sort, aggregate, attribute-assigned donor, row slice, row mask) x 14 write forms "
+RULE = ("(a) directed: every pair (derivation, write form, side written) over 38 derivations (copy, slice, mask, T, multi-column select, >> vector / "
+	"dict / table, <<, Table([..]), Vector([..]), joins, sort, aggregate, window, table arithmetic, transposes, peek, to_object, cast, fillna, dropna, unique, attribute-assigned donor, row slice, row mask ...) x 14 write forms "
 	"(vector int / slice / mask / index-list keys with scalar and sequence values, through a free vector or a live column view; table cell, row, "
 	"column, region; attribute assignment with list and vector; rename through view; rename_column) is executed and every object other than "
 	"the written one (and its own table / views) must keep contents, names and dtypes; (b) random histories of the object-pool machine (<=12 "
@@ -130,6 +130,96 @@ def _(rng, t, extra):
 @deriv("table-copy", "table")
 def _(rng, t, extra):
 	return t.copy()
+
+
+@deriv("window", "table")
+def _(rng, t, extra):
+	return t.window(over="c", sum_over="a", apply={"n": ("b", len)})
+
+
+@deriv("full_join", "table")
+def _(rng, t, extra):
+	return t.full_join(extra["t2"], "a", "k", expect="many_to_many")
+
+
+@deriv("inner_join-self", "table")
+def _(rng, t, extra):
+	return t.inner_join(t, "a", "a", expect="many_to_many")
+
+
+@deriv("table.T", "table")
+def _(rng, t, extra):
+	return Table({"a": list(t["a"]), "a2": list(t["a"])}).T if False else t["a", "a"].T
+
+
+@deriv("table*scalar", "table")
+def _(rng, t, extra):
+	return t["a", "b"] * 1
+
+
+@deriv("table+table", "table")
+def _(rng, t, extra):
+	return t["a", "b"] + t["a", "b"]
+
+
+@deriv("peek", "table")
+def _(rng, t, extra):
+	return t.peek()
+
+
+@deriv("cols-tuple", "table")
+def _(rng, t, extra):
+	return Table(list(t.cols()))
+
+
+@deriv("to_object", "vector")
+def _(rng, v, extra):
+	return v.to_object()
+
+
+@deriv("cast-same", "vector")
+def _(rng, v, extra):
+	return v.cast(int)
+
+
+@deriv("fillna", "vector")
+def _(rng, v, extra):
+	return v.fillna(0)
+
+
+@deriv("dropna", "vector")
+def _(rng, v, extra):
+	return v.dropna()
+
+
+@deriv("sort_by", "vector")
+def _(rng, v, extra):
+	return v.sort_by()
+
+
+@deriv("unary-pos", "vector")
+def _(rng, v, extra):
+	return +v
+
+
+@deriv("v+0", "vector")
+def _(rng, v, extra):
+	return v + 0
+
+
+@deriv("unique", "vector")
+def _(rng, v, extra):
+	return v.unique()
+
+
+@deriv("lshift-empty", "vector")
+def _(rng, v, extra):
+	return v << []
+
+
+@deriv("index-vector", "vector")
+def _(rng, v, extra):
+	return v[Vector(list(range(len(v))))]
 
 
 WRITES = ["vec-int-scalar", "vec-slice-seq", "vec-mask-scalar", "vec-idxlist-seq", "vec-slice-promote", "vec-none", "cell", "row", "column", "region",
